@@ -101,6 +101,79 @@ theorem pushed_runOps (d v : Nat) : pushed (runOps d v) = v := by
   | zero => simp [pushed]
   | succ n ih => simp [List.replicate_succ, pushed] at ih ⊢; exact ih
 
+/-! ### locked extern frames -/
+
+theorem resetLoopL_unlocked (base : List LFrame) (vals : Nat) :
+    ∀ (fs : List LFrame) (fuel : Nat), (∀ f ∈ fs, f.locked = false) → fs.length ≤ fuel →
+      resetLoopL base.length fuel ⟨fs ++ base, vals⟩ = (⟨base, vals⟩, true)
+  | [], fuel, _, _ => by
+    cases fuel with
+    | zero => simp [resetLoopL]
+    | succ n => simp [resetLoopL]
+  | f :: fs, fuel, hu, hl => by
+    cases fuel with
+    | zero => simp at hl
+    | succ n =>
+      have hf : f.locked = false := hu f List.mem_cons_self
+      have hlen : (f :: fs ++ base).length > base.length := by simp; omega
+      unfold resetLoopL
+      simp only [hlen, if_true]
+      simp only [exitScopeL, List.cons_append, hf]
+      exact resetLoopL_unlocked base vals fs n (fun g hg => hu g (List.mem_cons_of_mem _ hg))
+        (by simp at hl; omega)
+
+/-- With every frame above `base` unlocked the error path restores the thread exactly. -/
+theorem resetTopL_unlocked (base : List LFrame) (vlen p : Nat) (fs : List LFrame)
+    (hu : ∀ f ∈ fs, f.locked = false) :
+    resetTopL base.length vlen ⟨fs ++ base, vlen + p⟩ = (⟨base, vlen⟩, true) := by
+  unfold resetTopL
+  rw [resetLoopL_unlocked base (vlen + p) fs _ hu (by simp)]
+  simp only [LStack.mk.injEq, Prod.mk.injEq, true_and, and_true]
+  omega
+
+/-- A locked frame on top stops `reset_stack` at once: nothing is popped and the caller gets `reset_stack`'s error. -/
+theorem resetTopL_top_locked (level vlen : Nat) (f : LFrame) (rest : List LFrame) (vals : Nat)
+    (hl : f.locked = true) (hlen : (f :: rest).length > level) :
+    resetTopL level vlen ⟨f :: rest, vals⟩ = (⟨f :: rest, vals⟩, false) := by
+  unfold resetTopL
+  have : resetLoopL level (f :: rest).length ⟨f :: rest, vals⟩ = (⟨f :: rest, vals⟩, false) := by
+    simp only [List.length_cons]
+    unfold resetLoopL
+    simp only [List.length_cons] at hlen
+    simp only [List.length_cons, hlen, if_true, exitScopeL, hl]
+  simp only [this]
+
+theorem toL_toStack (s : Stack) : s.toL.toStack = s := by
+  cases s with
+  | mk f v => simp [Stack.toL, LStack.toStack, List.map_map, Function.comp_def]
+
+theorem asyncFail_restores (s : Stack) (d v : Nat) : asyncFailStep true s d v = (s, true) := by
+  unfold asyncFailStep
+  simp only [completeAsync, if_true, asyncPending, unlockTop]
+  have h := resetTopL_unlocked s.toL.frames s.toL.values v
+    (⟨s.toL.values + v, false⟩ :: List.replicate d ⟨s.toL.values + v, false⟩)
+    (by
+      intro f hf
+      simp only [List.mem_cons, List.mem_replicate] at hf
+      rcases hf with rfl | ⟨_, rfl⟩ <;> rfl)
+  simp only [List.cons_append] at h
+  rw [h]
+  simp only [Prod.mk.injEq, and_true]
+  have := toL_toStack s
+  cases hs : s.toL with
+  | mk f vv => rw [hs] at this; exact this
+
+theorem asyncFail_lock_order_stuck (s : Stack) (d v : Nat) :
+    (asyncFailStep false s d v).2 = false ∧
+    (asyncFailStep false s d v).1.frames.length = s.frames.length + d + 1 ∧
+    (asyncFailStep false s d v).1.values = s.values + v := by
+  unfold asyncFailStep
+  have hc : ∀ p, completeAsync false true p = (p, false) := by intro p; simp [completeAsync]
+  simp only [hc, asyncPending]
+  rw [resetTopL_top_locked _ _ _ _ _ rfl (by simp [Stack.toL]; omega)]
+  simp [LStack.toStack, Stack.toL]
+  omega
+
 def leakSum (steps : List Step) : Nat := (steps.map failLeak).sum
 
 theorem history_leaks : ∀ (steps : List Step) (s : Stack),
@@ -122,25 +195,46 @@ theorem history_leaks : ∀ (steps : List Step) (s : Stack),
     have := history_leaks steps ⟨s.frames, s.values + v⟩
     simp only [runHistory, List.foldl_cons] at this ⊢
     rw [h1, this]; simp [leakSum, failLeak]; omega
+  | .asyncFail d v :: steps, s => by
+    have h1 : stepWith resetStack s (.asyncFail d v) = s := by
+      simp only [stepWith]; rw [asyncFail_restores]
+    have := history_leaks steps s
+    simp only [runHistory, List.foldl_cons] at this ⊢
+    rw [h1, this]; simp [leakSum, failLeak]
+  | .okIO :: steps, s => by
+    have := history_leaks steps ⟨s.frames, s.values + 1⟩
+    simp only [runHistory, List.foldl_cons, stepWith] at this ⊢
+    rw [this]; simp [leakSum, failLeak]; omega
 
-theorem history_fixed : ∀ (steps : List Step) (s : Stack), runHistory resetFixed steps s = s
-  | [], s => by simp [runHistory]
+theorem history_fixed : ∀ (steps : List Step) (s : Stack),
+    runHistory resetFixed steps s = ⟨s.frames, s.values + ioSlots steps⟩
+  | [], s => by simp [runHistory, ioSlots]
   | .ok d v :: steps, s => by
     have := history_fixed steps s
     simp only [runHistory, List.foldl_cons, stepWith] at this ⊢
-    exact this
+    rw [this]; simp [ioSlots]
   | .fail d v :: steps, s => by
     have h1 : stepWith resetFixed s (.fail d v) = s := by
       simp only [stepWith]; exact resetFixed_after_run s _
     have := history_fixed steps s
     simp only [runHistory, List.foldl_cons] at this ⊢
-    rw [h1]; exact this
+    rw [h1, this]; simp [ioSlots]
   | .hostFail d v :: steps, s => by
     have h1 : stepWith resetFixed s (.hostFail d v) = s := by
       simp only [stepWith]; exact resetFixed_after_run s _
     have := history_fixed steps s
     simp only [runHistory, List.foldl_cons] at this ⊢
-    rw [h1]; exact this
+    rw [h1, this]; simp [ioSlots]
+  | .asyncFail d v :: steps, s => by
+    have h1 : stepWith resetFixed s (.asyncFail d v) = s := by
+      simp only [stepWith]; rw [asyncFail_restores]
+    have := history_fixed steps s
+    simp only [runHistory, List.foldl_cons] at this ⊢
+    rw [h1, this]; simp [ioSlots]
+  | .okIO :: steps, s => by
+    have := history_fixed steps ⟨s.frames, s.values + 1⟩
+    simp only [runHistory, List.foldl_cons, stepWith] at this ⊢
+    rw [this]; simp [ioSlots]; omega
 
 def enters : List Op → Nat
   | [] => 0
